@@ -247,21 +247,30 @@ CHECKS = {
         technique="Coq proof (structural induction over the abstract syntax with explicit fuel bounds) over a Gallina model of the parser + model/implementation correspondence"),
     "C05": dict(
         category="other",
-        text="Machine-checked for ALL token lists ending with their only Eof (Props/C05.v, 13 theorems): error recovery "
+        text="Machine-checked for ALL token lists ending with their only Eof (Props/C05.v, 23 theorems): error recovery "
              "resynchronises at every proc/type keyword (C05_sync), the declarations tile the token vector (C05_spans), the parse "
              "of a declaration depends only on the tokens up to the next proc/type/Eof (C05_locality), what follows a declaration "
              "boundary is parsed independently of everything in front of it (C05_suffix_independent: identical subtrees, offsets "
              "shifted), and hence containment: if the damaged region starts behind its declaration's keyword and ends at a "
              "declaration boundary of both parses, every declaration in front is unchanged, every declaration behind is the same "
              "subtree shifted by the length difference, and their syntax diagnostics are the same ones shifted (C05_containment, "
-             "C05_containment_between_keywords, C05_errors_contained). The first formulation of the full statement was too strong "
+             "C05_containment_between_keywords, C05_errors_contained). The SYMBOL TABLE part is proved too (Proofs/TableContain*.v): "
+             "the table is a function of the declaration list, first declaration of a name wins (C05_table_is_function, "
+             "C05_table_keys); under the hypotheses of C05_containment both builds succeed and every name not declared by the damaged "
+             "declaration itself keeps its entry - name, documentation, parameter names/modes, local variable names, range moved by "
+             "the length difference - and keeps its data types as well unless it (transitively) mentions a type whose meaning the "
+             "damage changed (C05_table_entries_kept, C05_table_contained, C05_table_contained_documents; the taint set is computed, "
+             "C05_table_contained_example shows it is needed, C05_table_name_clash shows first-wins is the only other exception). "
+             "The first formulation of the full statement was too strong "
              "and is refuted (C05_full_statement_refuted: a damage can end a declaration early or turn it into several); "
-             "C05_contained_in_one_declaration is the repaired statement. Whether a concrete single-token damage ends at a boundary, "
-             "the table entries and the diagnostic positions are decided by the exhaustive-per-program damage campaign on the "
-             "implementation. Known finding: C05-trailing-comment (comments in front of a deleted last token migrate to the next "
+             "C05_contained_in_one_declaration is the repaired statement. Whether a concrete single-token damage ends at a boundary "
+             "and the diagnostic positions are decided by the exhaustive-per-program damage campaign on the "
+             "implementation (harness dump_decl: subtrees, table entries, every diagnostic inside the damaged declaration - an empty "
+             "range k..k means behind token k), with the model compared on the damaged documents. Known finding: C05-trailing-comment "
+             "(comments in front of a deleted last token migrate to the next "
              "declaration's doc).",
         design_ref="DESIGN.md sections 5 (C05) and 10.2",
-        technique="Coq proof of resynchronisation, tiling, locality and shift-invariance (containment) over a Gallina model of the parser + exhaustive single-token damage campaign on the implementation"),
+        technique="Coq proof of resynchronisation, tiling, locality, shift-invariance (containment of trees, diagnostics and symbol-table entries) over a Gallina model of parser and table build + exhaustive single-token damage campaign on the implementation"),
     "C01": dict(
         category="other",
         text="Machine-checked (Props/C01.v, 21 theorems), for ALL documents and ALL histories of notifications: the text and "
